@@ -928,8 +928,18 @@ func evalFunctionApplication(node *jparse.FunctionApplicationNode, data reflect.
 	// evaluate it.
 	if f, ok := node.RHS.(*jparse.FunctionCallNode); ok {
 
-		f.Args = append([]jparse.Node{node.LHS}, f.Args...)
-		return evalFunctionCall(f, data, env)
+		// Build a new call node. The parsed expression is
+		// shared by every evaluation and must not be modified.
+		args := make([]jparse.Node, 0, len(f.Args)+1)
+		args = append(args, node.LHS)
+		args = append(args, f.Args...)
+
+		call := &jparse.FunctionCallNode{
+			Func: f.Func,
+			Args: args,
+		}
+
+		return evalFunctionCall(call, data, env)
 	}
 
 	// Evaluate both sides and return any errors.
